@@ -240,6 +240,11 @@ def parseOp (toks : List String) : Option Op :=
     | "tap" => (pSetters pTap rest).map (.config ∘ .tap)
     | _ => none
 
+structure Env where
+  pos : Option (List Byte) := none
+  neg : Option (List Byte) := none
+  pokes : List (Nat × Byte) := []
+
 structure Case where
   id : String
   ctor : Ctor
@@ -255,6 +260,15 @@ structure Case where
   ftail : String := "none"
   ctorFaults : List Nat
   ops : List (Op × List Nat)
+  /-- per operation: what the DEVICE does by itself before the call (`@pos=`, `@neg=`: new sensor
+      responses; `@rHH=VV`: a read-only register below 0x19 changes) - no bus traffic, not an API call -/
+  envs : List Env := []
+
+/-- sensor responses in force at operation k (0-based): the last `@pos=` / `@neg=` up to and including k -/
+def Case.posAt (c : Case) (k : Nat) : List Byte := (c.envs.take (k + 1)).foldl (fun acc e => e.pos.getD acc) c.pos
+def Case.negAt (c : Case) (k : Nat) : List Byte := (c.envs.take (k + 1)).foldl (fun acc e => e.neg.getD acc) c.neg
+def Case.pokesAt (c : Case) (k : Nat) : List (Nat × Byte) := (c.envs.getD k {}).pokes
+def poke (r : Regs) (ps : List (Nat × Byte)) : Regs := ps.foldl (fun r p => r.set p.1 p.2) r
 
 def words (s : String) : List String := (s.splitOn " ").filter (· ≠ "")
 
@@ -285,9 +299,21 @@ def parseCase (line : String) : Option Case := do
   let hd ← secs.head?
   let c ← parseHeader (words hd)
   let ops ← (secs.drop 1).mapM (fun s => do
-    let (toks, f) ← splitFaults (words s)
+    let (toks, f) ← splitFaults ((words s).filter (fun t => !t.startsWith "@"))
     pure (← parseOp toks, f))
-  pure { c with ops := ops }
+  let envs ← (secs.drop 1).mapM (fun s =>
+    ((words s).filter (·.startsWith "@")).foldlM (fun (e : Env) t =>
+      match (t.drop 1).toString.splitOn "=" with
+      | ["pos", v] => do pure { e with pos := some (← parseHexBytes v) }
+      | ["neg", v] => do pure { e with neg := some (← parseHexBytes v) }
+      | [r, v] =>
+        if r.startsWith "r" then do
+          let a ← parseHexNat (r.drop 1).toString
+          let b ← parseHexNat v
+          if a < 0x19 then pure { e with pokes := e.pokes ++ [(a, BitVec.ofNat 8 b)] } else none
+        else none
+      | _ => none) ({} : Env))
+  pure { c with ops := ops, envs := envs }
 
 /-! ### printing -/
 
@@ -343,6 +369,8 @@ def runCase (c : Case) : String :=
     let t := c.ctor.transport c.dev
     let (_, outs) := c.ops.foldl (fun (acc : World × List String) (opf : Op × List Nat) =>
       let (w, outs) := acc
+      let k := outs.length
+      let w := { w with chip := { w.chip with pos := c.posAt k, neg := c.negAt k, regs := poke w.chip.regs (c.pokesAt k) } }
       let (j, w', o) := runOp t (failsOf opf.2) w opf.1
       -- compact the closure chains (evaluated here, strictly, once per operation);
       -- no address ≥ 128 is ever read or written
